@@ -268,7 +268,7 @@ func c24CaseLits(c *fw.Ctx, idx int) []c24Lit {
 			n := []int{0, 1, 2, 3, 5, 9}[s.r.Intn(6)]
 			kind := 0
 			if i >= 6 && n > 0 {
-				kind = 1 + s.r.Intn(2)
+				kind = 1 + s.r.Intn(3)
 			}
 			out = append(out, s.FloatArray(a, n, kind))
 		}
